@@ -12,8 +12,8 @@ RULE = (
     "Hypothesis WorldSpecs that cancel (enforce_deadlines, drop_skipped_tasks, conditionals), miss deadlines (tight "
     "variance) and finish graphs (incl. closed loop); ground truth = final Task objects + monitor histories + shadow "
     "ledger; every TASK_RELEASE/PLACEMENT/FINISHED/CANCEL/MISSED_DEADLINE/TASK_GRAPH_*/SCHEDULER_*/SIMULATOR_END row is "
-    "recomputed, then the rows are written to a file and parsed by data.CSVReader, whose tasks/graphs are compared "
-    "field by field. Non-trivial = a run with >= 1 of {cancelled task, missed deadline, finished graph}; distinct by spec hash."
+    "recomputed, then the rows are written to a file and parsed by data.CSVReader (half of the time after a companion trace "
+    "read by the same reader), whose tasks/graphs are compared field by field. Non-trivial = a run with >= 1 of {cancelled task, missed deadline, finished graph}; distinct by spec hash."
 )
 ASSUMPTIONS = ["scheduler runtime 0", "no preemption", "runs that crash or livelock are judged by C05, not here"]
 
